@@ -58,7 +58,7 @@ ENT_COQ = {'recCol': 'RecCol', 'userAttr': 'UserAttr', 'userAttrCol': 'UserAttrC
 NEW_NAMES = ['Z', 'A2', 'name', 'Family_Name', 'x', 'rec', 'user', 'B', 'été', 'a_very_long_new_name']
 
 
-GEN_IMPORTS = IMPORTS + ['Grist.Model.PredVisit', 'GristGen.Predicate_gen']
+GEN_IMPORTS = IMPORTS + ['Grist.Model.PredVisit', 'GristGen.Predicate_gen', 'GristGen.ProcessRenames_gen']
 # the generated collectors (gen_visit (Some k)) against the entities of the running collectors
 GEN_DEFS = '''
 Definition ent_type_name (t : ent_type) : str :=
@@ -73,7 +73,21 @@ Definition gent_eqb (a b : gent) : bool :=
       str_eqb t1 t2 && (p1 =? p2) && str_eqb n1 n2 &&
       match x1, x2 with Some u, Some v => pyval_eqb u v | None, None => true | _, _ => false end
   end.
+(* the model renamer of the case, read on a NamedEntity as the generated process_renames sees it *)
+Definition gent_renamer (sp : renamer_spec) (g : gent) : option str :=
+  let ty := if str_eqb (g_type g) (lit "recCol") then Some RecCol
+            else if str_eqb (g_type g) (lit "userAttr") then Some UserAttr
+            else if str_eqb (g_type g) (lit "userAttrCol") then Some UserAttrCol
+            else if str_eqb (g_type g) (lit "choiceAttr") then Some ChoiceAttr else None in
+  match ty, g_extra g with
+  | Some t, None => renamer_of sp t (g_name g) None
+  | Some t, Some (PLeaf (CStr a)) => renamer_of sp t (g_name g) (Some a)
+  | _, _ => None
+  end.
 Definition c17_gen_ok (c : c17_case) : bool :=
+  pr_result_eqb (gen_process_renames (rc_collector c) (gent_renamer (rc_renamer c)) (rc_formula c)
+                                     (if rc_dollar_ok c then Some (rc_dollars c) else None) (rc_ast c)) (rc_result c)
+  &&
   match rc_ast c with
   | None => true
   | Some e =>
@@ -94,8 +108,7 @@ def regenerate(ctx):
     text = pf2v.translate(core.GRIST)
   except pf2v.Untranslatable as e:
     raise core.TieBroken('predicate_formula / collector methods are outside the translated subset: %s' % e)
-  ctx.extra['pinned_glue'] = predgen.check_pinned_glue(['predicate_formula.process_renames',
-                                                        'dropdown_condition.perform_dropdown_condition_renames',
+  ctx.extra['pinned_glue'] = predgen.check_pinned_glue(['dropdown_condition.perform_dropdown_condition_renames',
                                                         'trigger_expression.perform_trigger_condition_renames'])
   core.write_if_changed(os.path.join(core.COQ, 'gen', 'Predicate_gen.v'), text)
   from harness import pr2v
@@ -104,11 +117,25 @@ def regenerate(ctx):
   except pr2v.Untranslatable as e:
     raise core.TieBroken('acl.perform_acl_rule_renames is outside the translated subset: %s' % e)
   core.write_if_changed(os.path.join(core.COQ, 'gen', 'PerformAcl_gen.v'), acl_text)
+  try:
+    pr_text = PROC_HEADER + pr2v.translate_process_renames(os.path.join(core.GRIST, 'predicate_formula.py'))
+  except pr2v.Untranslatable as e:
+    raise core.TieBroken('predicate_formula.process_renames is outside the translated subset: %s' % e)
+  core.write_if_changed(os.path.join(core.COQ, 'gen', 'ProcessRenames_gen.v'), pr_text)
   ctx.extra['regenerated'] = ['coq/gen/Predicate_gen.v: %d definitions generated from predicate_formula.py, acl.py, '
                               'dropdown_condition.py, trigger_expression.py' % text.count('\nDefinition '),
-                              'coq/gen/PerformAcl_gen.v: gen_perform_acl generated from acl.perform_acl_rule_renames']
+                              'coq/gen/PerformAcl_gen.v: gen_perform_acl generated from acl.perform_acl_rule_renames',
+                              'coq/gen/ProcessRenames_gen.v: gen_process_renames generated from predicate_formula.process_renames']
 
 
+PROC_HEADER = '''(* GENERATED by harness/pr2v.py from predicate_formula.process_renames -- do not edit. *)
+From Coq Require Import ZArith List Bool String.
+Import ListNotations.
+Require Import Grist.Model.Predicate Grist.Model.PredicateRename Grist.Model.PredVisit GristGen.Predicate_gen.
+Open Scope Z_scope.
+Open Scope list_scope.
+
+'''
 PR_HEADER = '''(* GENERATED by harness/pr2v.py from acl.perform_acl_rule_renames -- do not edit. *)
 From Coq Require Import ZArith List Bool String.
 Import ListNotations.
@@ -467,12 +494,13 @@ def correspond(ctx):
     sub = [coq[k] for k in both]
     bad = [both[j] for j in ctx.run_cases('renames_model', IMPORTS, 'c17_case_ok', sub, shard=110)]
     genbad = [both[j] for j in ctx.run_cases('renames_gen', GEN_IMPORTS, 'c17_gen_ok', sub, shard=110, extra_defs=GEN_DEFS)]
-  ctx.extra['translator_validation'] = {'generated_collectors_vs_running_collectors_cases': len(coq), 'differ': len(genbad)}
+  ctx.extra['translator_validation'] = {'generated_collectors_and_process_renames_vs_running_code_cases': len(coq),
+                                        'differ': len(genbad)}
   for k in bad[:6]:
     ctx.broken('correspondence:Model.PredicateRename.process_renames differs from the running code',
                'formula %r via %s collector %s renamer %s: implementation %r' % meta[k])
   for k in genbad[:4]:
-    ctx.broken('translation:generated collector (pf2v) differs from the running collector',
+    ctx.broken('translation:generated collector / process_renames (pf2v, pr2v) differs from the running code',
                'formula %r via %s collector %s' % meta[k][:3])
   for k in ctx.run_cases('colids', IMPORTS, 'c17_colids_ok', colcases, shard=600)[:4]:
     ctx.broken('correspondence:Model.PredicateRename.rename_colids differs from perform_acl_rule_renames', colcases[k][-400:])
